@@ -352,11 +352,114 @@ theorem sign_from_first_field (s : String) (b t1 : List Char) (rest : List (List
     (hv : dec2dec dec2decPosHand dec2decNeg s = .ok v) : ∃ x y z, v = dec2decNeg x y z :=
   dec2decL_minus _ _ _ b t1 rest ht v hv
 
+/-! ### Deepening round: more of the formatters and of the parser regenerated, and the end-to-end inverse
+
+`dec2decPos` (the non-negative branch of `dec2dec`), `dmsScaled` / `hmsScaled` (the quantities that are
+rounded: `abs(float(x))·360000`, `float(x)·24000`) and `hmsWrapZ` (`· % 8640000`) are regenerated too.
+`Model.C17.dec2dmsGlue / dec2hmsGlue` assemble the whole formatters from the regenerated pieces (tied to
+the code by the driver op `fmtx`); what stays hand-written is the non-finite guard, `int(round(·))`,
+the sign test and the format string. -/
+
+theorem dec2decPos_eq_hand (d0 d1 d2 : ℝ) : dec2decPos d0 d1 d2 = dec2decPosHand d0 d1 d2 := by
+  try simp only [dec2decPos, dec2decPosHand, R.real_ofNat]
+  try ring_nf
+
+/-- the quantity `dec2dms` rounds is `|x|·360000`: hundredths of an arcsecond, the unit of `dmsD/dmsM/dmsCs` -/
+theorem dmsScaled_eq (x : ℝ) : dmsScaled x = |x| * 360000 := by
+  try simp only [dmsScaled, dmsScaledHand, R.real_abs, R.real_ofNat, Nat.cast_ofNat]
+  try ring_nf
+
+/-- the quantity `dec2hms` rounds is `x·24000`: hundredths of a second of time -/
+theorem hmsScaled_eq (x : ℝ) : hmsScaled x = x * 24000 := by
+  try simp only [hmsScaled, hmsScaledHand, R.real_ofNat, Nat.cast_ofNat]
+  try ring_nf
+
+/-- the regenerated wrap lands in one day, changes the count by whole days, and is the modelled `hmsWrap` -/
+theorem hmsWrapZ_spec (k : Int) :
+    0 ≤ hmsWrapZ k ∧ hmsWrapZ k < 8640000 ∧ (∃ j : Int, hmsWrapZ k = k - 8640000 * j) ∧
+      (hmsWrapZ k).toNat = hmsWrap k := by
+  have e : hmsWrapZ k = k % 8640000 := by
+    simp only [hmsWrapZ, hmsWrapZHand]
+    first
+      | exact Int.fmod_eq_emod_of_nonneg k (by decide)
+      | (rw [Int.fmod_eq_emod_of_nonneg k (by omega)]; omega)
+  refine ⟨by omega, by omega, ⟨k / 8640000, by omega⟩, ?_⟩
+  unfold hmsWrap; rw [e]
+
+theorem dec2decPos_funext : (dec2decPos : ℝ → ℝ → ℝ → ℝ) = dec2decPosHand := by
+  funext a b c; exact dec2decPos_eq_hand a b c
+
+/-- **Dec, end to end at the string level.**  Let `n` be the regenerated `dmsScaled x = |x|·360000`
+    rounded to nearest (any tie rule), `|x| < 99`, and let the sign character agree with the sign of `x`
+    whenever the printed digits are not all zero (for an all-zero string either sign is allowed).  Then
+    `dec2dec` accepts the string `dec2dms` prints and returns a value within half a unit of the last
+    printed digit (0.005 arcsec) of `x` itself. -/
+theorem dec2dms_dec2dec_inverse (x : ℝ) (n : Nat) (sgn : Bool) (hr : IsRound (dmsScaled x) n) (hx : |x| < 99)
+    (hs : n ≠ 0 → (sgn = true ↔ x < 0)) :
+    ∃ v : ℝ, dec2dec dec2decPos dec2decNeg (dmsString sgn (dmsD n) (dmsM n) (dmsCs n)) = .ok v ∧
+      |v - x| ≤ 1 / 720000 := by
+  rw [dmsScaled_eq] at hr
+  have hu := half_unit |x| n 360000 (by norm_num) (by simpa using hr)
+  have hn : n < 100 * 360000 := by
+    have h1 : abs (abs x * 360000 - (n : ℝ)) ≤ 1 / 2 := by simpa [IsRound] using hr
+    have h2 := (abs_le.mp h1).1
+    have : (n : ℝ) < 100 * 360000 := by nlinarith
+    exact_mod_cast this
+  rw [dec2decPos_funext]
+  refine ⟨_, dms_string_roundtrip sgn n hn, ?_⟩
+  have hu' : abs ((n : ℝ) / 360000 - abs x) ≤ 1 / 720000 := by norm_num at hu ⊢; exact hu
+  by_cases h0 : n = 0
+  · subst h0
+    have : |x| ≤ 1 / 720000 := by
+      have := (abs_le.mp hu').1; norm_num at this ⊢; linarith
+    cases sgn <;> simp <;> simpa [abs_neg] using this
+  · have hs' := hs h0
+    by_cases hneg : x < 0
+    · have : sgn = true := hs'.mpr hneg
+      subst this
+      simp only [if_true]
+      rw [abs_of_neg hneg] at hu'
+      have e : -((n : ℝ) / 360000) - x = -((n : ℝ) / 360000 - -x) := by ring
+      rw [e, abs_neg]; exact hu'
+    · have : sgn = false := by
+        cases sgn
+        · rfl
+        · exact absurd (hs'.mp rfl) hneg
+      subst this
+      simp only [Bool.false_eq_true, if_false]
+      rw [abs_of_nonneg (not_lt.mp hneg)] at hu'
+      exact hu'
+
+/-- **RA, end to end at the string level.**  Let `k` be the regenerated `hmsScaled x = x·24000` rounded to
+    nearest; the string `dec2hms` prints for the regenerated wrap of `k` is accepted by `ra2dec`, whose
+    value is within half a unit of the last printed digit (0.005 s = 1/48000 deg) of `x` modulo 360. -/
+theorem dec2hms_ra2dec_inverse (x : ℝ) (k : Int) (hr : IsRound (hmsScaled x) k) :
+    ∃ (v : ℝ) (j : Int),
+      (dec2dec dec2decPos dec2decNeg
+        (hmsString (hmsH (hmsWrapZ k).toNat) (hmsM (hmsWrapZ k).toNat) (hmsCs (hmsWrapZ k).toNat))).map ra2decScale
+        = .ok v ∧ |v + 360 * j - x| ≤ 1 / 48000 := by
+  rw [hmsScaled_eq] at hr
+  obtain ⟨j, hj⟩ := hms_string_roundtrip k
+  rw [(hmsWrapZ_spec k).2.2.2, dec2decPos_funext]
+  refine ⟨_, j, hj, ?_⟩
+  have := half_unit x k 24000 (by norm_num) hr
+  have e : (k : ℝ) / 24000 - 360 * j + 360 * j - x = (k : ℝ) / 24000 - x := by ring
+  rw [e]; norm_num at this ⊢; exact this
+
+/-- the fields printed by `dec2hms` through the regenerated wrap are in range for every integer count -/
+theorem hms_fields_wrapZ (k : Int) :
+    hmsH (hmsWrapZ k).toNat < 24 ∧ hmsM (hmsWrapZ k).toNat < 60 ∧ hmsCs (hmsWrapZ k).toNat / 100 < 60 := by
+  rw [(hmsWrapZ_spec k).2.2.2]
+  exact ⟨(hms_fields k).1, (hms_fields k).2.1, (hms_fields k).2.2.1⟩
+
 /-! ### Non-vacuity, and the negation witnesses for the pinned Float formatters -/
 
 example : dmsD 3960000 = 11 ∧ dmsM 3960000 = 0 ∧ dmsCs 3960000 = 0 := by decide
 example : dmsD 3959999 = 10 ∧ dmsM 3959999 = 59 ∧ dmsCs 3959999 = 5999 := by decide
 example : hmsWrap (-1) = 8639999 ∧ hmsH (hmsWrap 8640000) = 0 := by decide
+example : hmsWrapZ (-1) = 8639999 ∧ hmsWrapZ 8640000 = 0 ∧ hmsWrapZ 565627 = 565627 := by decide
+example : IsRound (dmsScaled (-0.12345 : ℝ)) 44442 := by
+  rw [dmsScaled_eq]; unfold IsRound; norm_num [abs_of_neg, abs_le]
 example : dmsString false (dmsD 3960000) (dmsM 3960000) (dmsCs 3960000) = "+11:00:00.00" := by decide +kernel
 example : dmsString true (dmsD 3959999) (dmsM 3959999) (dmsCs 3959999) = "-10:59:59.99" := by decide +kernel
 example : hmsString (hmsH (hmsWrap (-1))) (hmsM (hmsWrap (-1))) (hmsCs (hmsWrap (-1))) = "23:59:59.99" := by
